@@ -1057,6 +1057,10 @@ class Value(Term):
                 + ", saw "
                 + str(list(disallowed)[0])
             )
+        canonical_type = data_algebra.util.map_type_to_canonical(type(value))
+        if (value is not None) and (canonical_type is not type(value)):
+            # numpy scalars print as np.float64(1.5), which is not in the expression language: carry the Python value
+            value = canonical_type(value)
         self.value = value
         Term.__init__(self)
 
